@@ -290,12 +290,41 @@ def build_object(o, names, props, natural, d=None, v=None, form="dict", texts=No
     return Material(dict(zip(names, props)), natural=natural, norm_type=Norm[o["mode"]], **kw)
 
 
+def material_text(names, props, texts=None):
+    spell = [texts[i] if texts and i < len(texts) and float(texts[i]) == float(p) else num_text(p) for i, p in enumerate(props)]
+    return " ".join("%s <%s>" % (t, n) for n, t in zip(names, spell))
+
+
+def solve_with_reused_solver(o, names, props, natural, texts=None):
+    """One MaterialSolver instance is given an expression it must reject after it has read part of it (a substance that
+    is not tabulated), then the expression of the scenario; the material it returns is observed."""
+    from scinumtools.materials import MaterialSolver
+    proto = Material(natural=natural, norm_type=Norm[o["mode"]])
+    text = material_text(names, props, texts)
+    with MaterialSolver(proto.atom) as ms:
+        try:
+            ms.solve(text + " 1 <Xx2>")
+        except Exception:
+            pass
+        return ms.solve(text)
+
+
 def num_text(p):
     """A proportion as the material expression syntax accepts it (Python's shortest spelling; may use an exponent)."""
     return repr(float(p)) if float(p) != int(p) else str(int(p))
 
 
-def observe_fractions(obj, names, nm, obs):
+def observe_fractions(obj, names, nm, obs, sels=()):
+    # row selections: data_composite(components=[...]) (the list given in component order or reversed)
+    for n, sel in enumerate(sels):
+        chosen = [names[i - 1] for i in sel]
+        dsel = obj.data_composite(components=chosen if n % 2 == 0 else chosen[::-1], quantity=False)
+        sid = "%s.sel.%s" % (nm, "".join(str(i) for i in sel))
+        for i in sel:
+            obs["%s.x.%d" % (sid, i)] = dsel[names[i - 1]].x
+            obs["%s.X.%d" % (sid, i)] = dsel[names[i - 1]].X
+        obs[sid + ".sum.x"] = dsel["sum"].x
+        obs[sid + ".sum.X"] = dsel["sum"].X
     dc = obj.data_composite(quantity=False)
     for i, name in enumerate(names, 1):
         obs["%s.m.%d" % (nm, i)] = obj.components[name].component_mass.value("Da")
@@ -351,7 +380,10 @@ def replay_objects(rec, conc, what):
                     return ("fail", {"failure": "wrong_value", "clause": "input of object %s needs %s" % (o["name"], m), "observed": obs})
                 form = o.get("form") or (conc.get("form", "dict") if o["name"] == "A" else "dict")
                 desc.update({"props": props, "d": d, "ud": o.get("ud"), "v": v, "uv": o.get("uv"), "steps": steps, "form": form})
-                obj = build_object(o, names, props, conc["natural"], d, v, form, conc.get("texts"))
+                if o.get("via") == "reused_solver":
+                    obj = solve_with_reused_solver(o, names, props, conc["natural"], conc.get("texts"))
+                else:
+                    obj = build_object(o, names, props, conc["natural"], d, v, form, conc.get("texts"))
                 for i, q in steps:
                     obj.add(names[i - 1], q)                    # in place, the component exists already
                 desc_of[o["name"]] = o
@@ -388,7 +420,7 @@ def replay_objects(rec, conc, what):
             if o.get("silent"):
                 continue
             if what == "fractions":
-                observe_fractions(obj, names, o["name"], obs)
+                observe_fractions(obj, names, o["name"], obs, o.get("sels", ()))
             else:
                 observe_matter(obj, desc_of[o["name"]], names, o["name"], obs)
         except Exception as e:
